@@ -83,7 +83,7 @@ def explicit_config_file_must_be_a_file(prog, rep, R):
         return
     gf = g.calls_to(PC + "get_config_object_from_file")
     isf = [c for c in g.calls() if (c.callee or "") == "std::path::Path::is_file"]
-    ok = len(gf) == 1 and len(isf) >= 1
+    ok = len(gf) >= 1 and len(isf) >= 1
     if ok:
         # the test is applied to the explicit file ...
         explicit = any(any(x[0] == "param" and "config_file" in str(x[2]) for x in Origins(g).of_operand(c.args[0])) or "arg1.config_file" in canon(g, c.args[0]) for c in isf)
@@ -260,7 +260,7 @@ def check_c19(prog, rep, tier, cfg):
                         ok &= "arg1.config_file@Some.0" in arg and "find_config_file" not in names
                     elif any(c[0] == "is" and c[1].endswith("config_file") and c[2] == "None" for c in cons):
                         seen_none += 1
-                        ok &= "find_config_file(" in arg and "current_dir" in names
+                        ok &= ("find_config_file(" in arg or any("find_config_file(" in str(c[1]) for c in cons)) and "current_dir" in names
                     else:
                         ok = False
                 ok = ok and seen_some >= 1 and seen_none >= 1
@@ -320,8 +320,15 @@ def check_c19(prog, rep, tier, cfg):
             rep.check(names == want, R, "accepted-values:" + en, "%s accepts %s (documented: %s)" % (en, names, want), instance={"enum": en, "values": names})
     iv = prog.body("<pasfmt::InternalEncodingVisitor as serde::de::Visitor>::visit_str")
     if rep.check(iv is not None, R, "anchor:InternalEncodingVisitor", "InternalEncodingVisitor::visit_str not found"):
-        inv = [c for c in iv.calls() if "invalid_value" in (c.callee or "")]
-        fl = iv.calls_to("encoding_rs::Encoding::for_label")
+        # (the visitor, its closures and the front-end functions it calls: the classification may live in a helper)
+        ivfam = [iv] + [x for k, x in prog.bodies.items() if k.startswith(iv.npath + "::")]
+        for c in list(iv.calls()):
+            hb = prog.body(norm(c.t.get("resolved") or c.callee or ""))
+            if hb is not None and hb.crate == iv.crate and hb not in ivfam:
+                ivfam.append(hb)
+                ivfam += [x for k, x in prog.bodies.items() if k.startswith(hb.npath + "::")]
+        inv = [c for x in ivfam for c in x.calls() if "invalid_value" in (c.callee or "")]
+        fl = [c for x in ivfam for c in x.calls_to("encoding_rs::Encoding::for_label")]
         rep.check(len(inv) == 1 and len(fl) == 1, R, "unknown-encoding-is-error", "an unknown encoding label is not rejected", instance={"for_label": len(fl), "invalid_value": len(inv)})
         # the decision table of the visitor: `native` only for the word itself, a named encoding only for what for_label() knows, else an error
         try:
